@@ -115,6 +115,8 @@ def ops(D):
     add("value_from_iter", "void* m, It it", "new(m) Arr(*it);", {0: "ctor"}, "ctor", "C03")
     add("array_paren_assign", "Arr& a, Arr const& b", "a() = b();", {0: "live", 1: "live"}, "view")
     add("ref_assign_ref", "Ref& r, Ref const& q", "r = q;", {0: "view", 1: "view"}, "view")
+    add("ref_assign_constptr_ref", "Ref& r, multi::array_ref<Tracked, DD, Tracked const*> const& q", "r = q;", {0: "view", 1: "view"}, "view")
+    add("rvalue_ref_assign_constptr_ref", "Ref& r, multi::array_ref<Tracked, DD, Tracked const*> const& q", "std::move(r) = q;", {0: "view", 1: "view"}, "view")
     if D >= 2:
         add("row_assign_row", "Arr& a, Arr const& b", "a[0] = b[1];", {0: "live", 1: "live"}, "view")
         add("view_fill", "Sub& v, typename Sub::value_type const& row", "v.fill(row);", {0: "view"}, "view")
